@@ -10,6 +10,11 @@ Streams:
     lattice  random longer sign sequences with repeated vertices (pool of few points), exact
     float    random polylines and planes (oblique normals, magnitudes 1e-6..1e6), every vertex at least 1e-7*scale away
              from the plane (or exactly on an axis-aligned one)
+    near     random polylines with vertices projected onto an oblique plane up to rounding and nudged by a few ulps to
+             either side (as neighbours of the run, inside runs, everywhere); plus `explicit` corpus inputs.  The side of
+             such a vertex is a matter of rounding, so every sign-dependent expectation is taken from the implementation's
+             own `plane.sign()`, and the model runs the same code-shaped kernel on the observed signs and signed
+             distances (`slice.given`): exact rationals with tolerance, Float with (near) bit equality.
     isect    single segments through `intersect_segment_with_plane` incl. parallel / out-of-range / end-point cases
 Oracle: an independent computation of the (cyclic) run in front and of the expected result in exact Fractions.
 """
@@ -32,14 +37,18 @@ RULE = ("stream 'signs' enumerates ALL sign sequences over {front,on,behind} of 
         "axis-aligned plane in {-3,-1,0,1,3} so every crossing parameter is 1/4, 1/2 or 3/4 and all float arithmetic is exact); "
         "'lattice' = random sign sequences of length 2..14 over a pool of few points (repeated vertices); 'float' = random planes "
         "(oblique or axis-aligned) and polylines at magnitudes 1e-6..1e6 with single-run, multi-run and random sign patterns, "
-        "vertices >= 1e-7*scale from the plane; 'isect' = single segments incl. parallel and out-of-range ones; every polyline "
+        "vertices >= 1e-7*scale from the plane; 'near' = vertices within a few ulps of an oblique plane mixed with far ones, signs as "
+        "observed from plane.sign(), kernel run on the observed signs/distances; 'isect' = single segments incl. parallel and out-of-range ones; every polyline "
         "case runs the code-shaped model, the span-shaped twin and the specification; non-trivial = at least one vertex; "
         "distinct = distinct spec")
 TRUSTED = ["np.sign / np.vsplit / np.roll / np.vstack / nonzero modelled as sign, list sections, rotation, append, index filter",
            "IEEE rounding not modelled: coordinates of crossing points compared with rtol max(1e-9, 64*2^-53*|b-a|/|d_b-d_a|)*scale, "
            "kept vertices, row counts, is_closed and exception classes exactly"]
-ASSUMPTIONS = ["float stream: vertices closer to the plane than 1e-7*scale (but not exactly on it) are not generated; "
-               "vertices exactly on the plane only where the signed distance is computed exactly (lattice, axis-aligned planes)",
+ASSUMPTIONS = ["for a vertex within rounding error of the plane the side it is counted on is the one plane.sign() reports (streams "
+               "'near'/'explicit'); all other clauses (finite coordinates, added rows on their segment, nothing behind the plane "
+               "beyond 1e-9*scale, kept vertices bit-identical, ValueError exactly in the stated situations) are checked there too",
+               "the exact-arithmetic model computes its own signs only on inputs where they are determined: lattice / axis-aligned "
+               "on-plane vertices, float-stream vertices at least 1e-7*scale from the plane",
                "inputs are finite (no NaN / inf coordinates)"]
 EXHAUSTIVE = {"quick": True, "thorough": True}
 
@@ -61,6 +70,8 @@ def gen(rng, tier):
         yield {"op": "lattice", "closed": rng.random() < 0.5, "seed": rng.randrange(1 << 30)}
     for _ in range(500 if tier == "quick" else 20000):
         yield {"op": "float", "closed": rng.random() < 0.5, "seed": rng.randrange(1 << 30)}
+    for _ in range(600 if tier == "quick" else 20000):
+        yield {"op": "near", "closed": rng.random() < 0.5, "seed": rng.randrange(1 << 30)}
     for _ in range(200 if tier == "quick" else 4000):
         yield {"op": "isect", "seed": rng.randrange(1 << 30)}
 
@@ -187,13 +198,18 @@ def exact_d(p, ref, nrm):
     return sum((F(a) - F(r)) * F(c) for a, r, c in zip(p, ref, nrm))
 
 
-def expect(vs, ref, nrm, closed):
-    """-> ("err", reason) | ("ok", rows) with rows = [("v", index) | ("x", exact point, a_index, b_index)]"""
+def expect(vs, ref, nrm, closed, signs=None):
+    """-> ("err", reason) | ("ok", rows) with rows = [("v", index) | ("x", exact point, a_index, b_index)]
+    signs: None = exact signs of the exact signed distances; else the observed signs (near-plane inputs), in which case
+    the "x" rows carry None instead of an exact point (only segment membership is checked)"""
     n = len(vs)
     if n == 0:
         return ("err", "empty")
     d = [exact_d(p, ref, nrm) for p in vs]
-    front = [x > 0 for x in d]
+    if signs is not None:
+        front = [x > 0 for x in signs]
+    else:
+        front = [x > 0 for x in d]
     if not any(front):
         return ("err", "nofront")
     if all(front):
@@ -211,6 +227,8 @@ def expect(vs, ref, nrm, closed):
 
     def joint(a, b, nb):
         # nb: index of the neighbour; (a, b): direction of the segment as travelled
+        if signs is not None:
+            return ("v", nb) if signs[nb] == 0 else ("x", None, a, b)
         if d[nb] == 0:
             return ("v", nb)
         t = d[a] / (d[a] - d[b])
@@ -228,13 +246,13 @@ def expect(vs, ref, nrm, closed):
     return ("ok", rows)
 
 
-def category(vs, ref, nrm, closed):
-    e = expect(vs, ref, nrm, closed)
+def category(vs, ref, nrm, closed, signs=None):
+    e = expect(vs, ref, nrm, closed, signs)
     if e[0] == "err":
         return "err-" + e[1], e
     rows = e[1]
     # classify the two ends: crossing / on-plane neighbour / open end
-    d = [exact_d(p, ref, nrm) for p in vs]
+    d = [exact_d(p, ref, nrm) for p in vs] if signs is None else list(signs)
     ends = []
     first, last = rows[0], rows[-1]
     ends.append("x" if first[0] == "x" else ("on" if d[first[1]] == 0 else "end"))
@@ -258,7 +276,17 @@ def cond_rtol(vs, ref, nrm, e):
     return min(r, 1e-3)
 
 
-def oracle_poly(res, vs, ref, nrm, closed, e, tol):
+def seg_distance(p, a, b):
+    """max-norm distance (exact) from p to the closest point of segment a-b"""
+    P, A, B = ([F(c) for c in x] for x in (p, a, b))
+    ab = [y - x for x, y in zip(A, B)]
+    den = sum(c * c for c in ab)
+    t = Fraction(0) if den == 0 else sum((x - y) * c for x, y, c in zip(P, A, ab)) / den
+    t = min(max(t, Fraction(0)), Fraction(1))
+    return max(abs(x - (y + t * c)) for x, y, c in zip(P, A, ab))
+
+
+def oracle_poly(res, vs, ref, nrm, closed, e, tol, signs=None):
     out = []
     what = "closed" if closed else "open"
     if e[0] == "err":
@@ -292,8 +320,13 @@ def oracle_poly(res, vs, ref, nrm, closed, e, tol):
         for p, row in zip(pts, rows):
             if row[0] == "v":
                 if [float(c) for c in p] != [float(c) for c in vs[row[1]]] or any(math.copysign(1, a) != math.copysign(1, b) for a, b in zip(p, vs[row[1]]) if a == 0):
-                    key = "run/vertices-identical" if exact_d(vs[row[1]], ref, nrm) > 0 else "end/on-plane-neighbour"
+                    infront = (signs[row[1]] > 0) if signs is not None else exact_d(vs[row[1]], ref, nrm) > 0
+                    key = "run/vertices-identical" if infront else "end/on-plane-neighbour"
                     out.append((key, "returned row %s is not the original vertex %d %s; vertices=%s plane=(%s,%s)" % (p, row[1], vs[row[1]], vs, ref, nrm)))
+            elif row[1] is None:
+                if seg_distance(p, vs[row[2]], vs[row[3]]) > tol:
+                    out.append(("end/on-segment", "returned row %s does not lie on the segment %d->%d it comes from; vertices=%s plane=(%s,%s)"
+                                % (p, row[2], row[3], vs, ref, nrm)))
             else:
                 if any(abs(F(a) - b) > tol for a, b in zip(p, row[1])):
                     out.append(("end/crossing", "returned row %s is not the crossing %s of segment %d->%d; vertices=%s plane=(%s,%s)"
@@ -306,9 +339,76 @@ def oracle_poly(res, vs, ref, nrm, closed, e, tol):
 
 # ---------------------------------------------------------------------------------------------------
 
+def build_near(spec):
+    """vertices within a few ulps of an oblique plane, mixed with vertices far from it"""
+    from polliwog import Plane
+    rng = random.Random(spec["seed"])
+    scale = gens.scale_of(rng, -4, 4)
+    plane = Plane.from_point_and_normal(np.array(gens.fvec(rng, scale)), np.array(gens.unit(rng)))
+    rv = np.array(plane.reference_point, dtype=np.float64)
+    nv = np.array(plane.normal, dtype=np.float64)
+    n = rng.choice([2, 2, 3, 3, 4, 5, 6, 8, 12])
+    base = pattern(rng, n, spec["closed"], False)
+    near_p = rng.choice([0.2, 0.4, 0.7])
+    ax = int(np.argmax(np.abs(nv)))
+    vs = []
+    for s_ in base:
+        p0 = rv + np.array(gens.fvec(rng, scale))
+        if rng.random() < near_p:
+            p = p0 - np.dot(p0 - rv, nv) * nv           # on the plane up to rounding
+            if rng.random() < 0.3:
+                p = p - np.dot(p - rv, nv) * nv          # once more: even closer
+            k = rng.randint(-4, 4)
+            for _ in range(abs(k)):
+                p[ax] = np.nextafter(p[ax], np.inf if k > 0 else -np.inf)
+        else:
+            dist = scale * 10.0 ** rng.uniform(-3, 0)
+            p = p0 - np.dot(p0 - rv, nv) * nv + s_ * dist * nv
+        vs.append([float(x) for x in p])
+    return vs, [float(x) for x in rv], [float(x) for x in nv]
+
+
+def make_near(spec):
+    """inputs whose signs are a matter of rounding: signs / signed distances as observed on the implementation"""
+    from polliwog import Plane, Polyline
+    if spec["op"] == "explicit":
+        vs, ref, nrm = [list(map(float, p)) for p in spec["v"]], list(map(float, spec["ref"])), list(map(float, spec["n"]))
+    else:
+        vs, ref, nrm = build_near(spec)
+    closed = bool(spec["closed"])
+    V = np.array(vs, dtype=np.float64).reshape(-1, 3)
+    plane = Plane(np.array(ref, dtype=np.float64), np.array(nrm, dtype=np.float64))
+    scale = max(gens.maxabs(V, ref), 1e-300)
+    signs = [int(x) for x in np.atleast_1d(plane.sign(V.copy()))] if len(V) else []
+    dist = [float(x) for x in np.atleast_1d(plane.signed_distance(V.copy()))] if len(V) else []
+    cat, e = category(vs, ref, nrm, closed, signs)
+    tol = Fraction(1e-9) * Fraction(scale)
+    nearcount = sum(1 for p in vs if abs(exact_d(p, ref, nrm)) <= Fraction(1e-12) * Fraction(scale))
+    kl = "%s/%s/%s/%s" % (spec["op"], "closed" if closed else "open", cat, "near%d" % min(nearcount, 3))
+
+    def impl_poly():
+        r = Polyline(V.copy(), is_closed=closed).sliced_by_plane(plane)
+        return [bool(r.is_closed), int(len(r.v))] + flat(r.v)
+
+    line = Line("slice.given").b(closed).i(len(vs))
+    for s_, d_, p in zip(signs, dist, vs):
+        line.i(s_).f(d_).f(*p)
+
+    def cmp_given(r, a, mode):
+        from pwlib import canon
+        # Float run of the kernel on the observed distances repeats the implementation's arithmetic operation by
+        # operation; the rational run is the exact value of the same formula
+        return canon.compare(r, a, scale=scale, rtol=1e-13 if mode == "float" else 1e-9)
+
+    return [Case(spec, line, impl_poly, mode="both", klass="slice.given/" + kl, trivial=len(vs) == 0, scale=scale,
+                 compare=cmp_given, oracle=lambda r: oracle_poly(r, vs, ref, nrm, closed, e, tol, signs))]
+
+
 def make(spec):
     if spec["op"] == "isect":
         return make_isect(spec)
+    if spec["op"] in ("near", "explicit"):
+        return make_near(spec)
     from polliwog import Plane, Polyline
     from polliwog.polyline._slice_by_plane import slice_open_polyline_by_plane
     vs, ref, nrm = build(spec)
